@@ -31,7 +31,7 @@ class Prop(common.PropertyCheck):
                    'gain': [rng.choice([None, '1', '2', '0.5', '8', '0.01']) for _ in range(D)],
                    'm': [rng.uniform(0.85, 1.25) for _ in range(D)], 'b': [rng.uniform(0, 7) for _ in range(D)],
                    'rfi_ch': rng.choice(['all', 'subset', 'one']), 'mef_ch': rng.choice(['subset', 'one', 'all']),
-                   'override': rng.random() < 0.3, 'seed': rng.randrange(1 << 30)}
+                   'override': rng.random() < 0.3, 'sc_all': rng.random() < 0.5, 'seed': rng.randrange(1 << 30)}
 
     def build(self, case):
         import random
@@ -107,8 +107,13 @@ class Prop(common.PropertyCheck):
             # --- to_mef on the RFI sample (both orders on the same objects)
             ch2 = pick(case['mef_ch'])
             ccols = cols_of(ch2)
-            scs = [(lambda m, b: (lambda x: np.sign(x) * np.exp(b) * (np.abs(x) ** m)))(case['m'][c], case['b'][c]) for c in ccols]
-            sc_ch = [names[c] for c in ccols]
+            # the calibration holds curves for exactly the converted channels, or for every channel (in another order) while only some are converted
+            sc_cols = list(ccols)
+            if case.get('sc_all'):
+                sc_cols = list(range(D))
+                r.shuffle(sc_cols)
+            scs = [(lambda m, b: (lambda x: np.sign(x) * np.exp(b) * (np.abs(x) ** m)))(case['m'][c], case['b'][c]) for c in sc_cols]
+            sc_ch = [names[c] for c in sc_cols]
             gated_first = FlowCal.transform.to_mef(FlowCal.gate.high_low(rfi), ch2, scs, sc_ch)
             mef = FlowCal.transform.to_mef(rfi, ch2, scs, sc_ch)
             limits_check(rfi, mef, ccols, 'to_mef')
